@@ -239,3 +239,70 @@ twin('c03-acc-commuted', 'C03', M, 'Method.CalculateIterationPoint',
      'self.min_delta = min(old.delta, self.min_delta)', 'self.min_delta = min(self.min_delta, old.delta)')
 fire('c03-new-while', 'C03', M, 'Method.RecalcAllCharacteristics', '        self.searchData.RefillQueue()\n',
      '        while self.searchData.GetCount() < 0:\n            pass\n        self.searchData.RefillQueue()\n', 'R03.7')
+
+# ----------------------------------------------------------------------------- C04
+fire('c04-no-update', 'C04', P, 'Process.DoGlobalIteration', '                self.method.UpdateOptimum(newpoint)\n', '',
+     'R04.1')
+fire('c04-update-other', 'C04', P, 'Process.DoGlobalIteration', 'self.method.UpdateOptimum(newpoint)',
+     'self.method.UpdateOptimum(oldpoint)', 'R04.1')
+fire('c04-seed-no-update', 'C04', M, 'Method.FirstIteration', '        self.UpdateOptimum(middle)\n', '', 'R04.1')
+fire('c04-update-after-notify', 'C04', P, 'Process.DoGlobalIteration',
+     '                self.method.UpdateOptimum(newpoint)\n                self.method.RenewSearchData(newpoint, oldpoint)',
+     '                for listener in self.__listeners:\n                    listener.OnEndIteration([newpoint], self.GetResults())\n                self.method.UpdateOptimum(newpoint)\n                self.method.RenewSearchData(newpoint, oldpoint)',
+     'R04.1')
+twin('c04-update-after-renew', 'C04', P, 'Process.DoGlobalIteration',
+     '                self.method.UpdateOptimum(newpoint)\n                self.method.RenewSearchData(newpoint, oldpoint)',
+     '                self.method.RenewSearchData(newpoint, oldpoint)\n                self.method.UpdateOptimum(newpoint)',
+     why='order of optimum update and renewal is absorbed by the recalc flag')
+fire('c04-pred-reversed', 'C04', M, 'Method.UpdateOptimum', 'point.GetZ() < self.best.GetZ():',
+     'point.GetZ() > self.best.GetZ():', 'R04.2')
+fire('c04-pred-index', 'C04', M, 'Method.UpdateOptimum', 'self.best.GetIndex() < point.GetIndex():',
+     'self.best.GetIndex() > point.GetIndex():', 'R04.2')
+fire('c04-pred-no-eq', 'C04', M, 'Method.UpdateOptimum', 'elif self.best.GetIndex() == point.GetIndex() and point.GetZ() < self.best.GetZ():',
+     'elif point.GetZ() < self.best.GetZ():', 'R04.2')
+fire('c04-pred-none-dropped', 'C04', M, 'Method.UpdateOptimum', 'if self.best is None or self.best.GetIndex() < point.GetIndex():',
+     'if self.best is not None and self.best.GetIndex() < point.GetIndex():', 'R04.2')
+fire('c04-zstar-missing', 'C04', M, 'Method.UpdateOptimum',
+     '            self.best = point\n            self.recalc = True\n            self.Z[point.GetIndex()] = point.GetZ()\n        self.searchData',
+     '            self.best = point\n            self.recalc = True\n        self.searchData', 'R04.2')
+twin('c04-pred-le', 'C04', M, 'Method.UpdateOptimum', 'point.GetZ() < self.best.GetZ():', 'point.GetZ() <= self.best.GetZ():')
+twin('c04-pred-commuted', 'C04', M, 'Method.UpdateOptimum', 'point.GetZ() < self.best.GetZ():', 'self.best.GetZ() > point.GetZ():')
+twin('c04-pred-merged', 'C04', M, 'Method.UpdateOptimum',
+     '        if self.best is None or self.best.GetIndex() < point.GetIndex():\n            self.best = point\n            self.recalc = True\n            self.Z[point.GetIndex()] = point.GetZ()\n        elif self.best.GetIndex() == point.GetIndex() and point.GetZ() < self.best.GetZ():\n            self.best = point',
+     '        if self.best is None or self.best.GetIndex() < point.GetIndex() or (self.best.GetIndex() == point.GetIndex() and point.GetZ() < self.best.GetZ()):\n            self.best = point\n            self.recalc = True\n            self.Z[point.GetIndex()] = point.GetZ()\n        elif False:\n            self.best = point')
+fire('c04-publish-conditional', 'C04', M, 'Method.UpdateOptimum',
+     '            self.Z[point.GetIndex()] = point.GetZ()\n        self.searchData.solution.bestTrials[0] = self.best',
+     '            self.Z[point.GetIndex()] = point.GetZ()\n            self.searchData.solution.bestTrials[0] = self.best',
+     'R04.3')
+fire('c04-publish-point', 'C04', M, 'Method.UpdateOptimum', 'self.searchData.solution.bestTrials[0] = self.best',
+     'self.searchData.solution.bestTrials[0] = point', 'R04.3')
+fire('c04-wrong-slot-read', 'C04', M, 'Method.CalculateFunctionals', 'point.SetZ(point.functionValues[0].value)',
+     'point.SetZ(point.functionValues[-1].value)', 'R04.4')
+fire('c04-wrong-point', 'C04', OT, 'OptimizationTask.Calculate', 'self.problem.Calculate(dataItem.point,',
+     'self.problem.Calculate(dataItem.GetLeft().point,', 'R04.4')
+fire('c04-z-before-call', 'C04', M, 'Method.CalculateFunctionals',
+     '        point = self.task.Calculate(point, 0)\n        point.SetZ(point.functionValues[0].value)',
+     '        point.SetZ(point.functionValues[0].value)\n        point = self.task.Calculate(point, 0)', 'R04.4')
+fire('c04-perm-reversed', 'C04', OT, 'OptimizationTask.__init__', 'self.perm[i] = i', 'self.perm[i] = self.perm.size - 1 - i',
+     'R04.4')
+twin('c04-z-from-result', 'C04', M, 'Method.CalculateFunctionals',
+     '        point = self.task.Calculate(point, 0)\n        point.SetZ(point.functionValues[0].value)',
+     '        point = self.task.Calculate(point, 0)\n        z = point.functionValues[0].value\n        point.SetZ(z)')
+fire('c04-shared-default', 'C04', SD, 'SearchDataItem.__init__',
+     'functionValues: np.ndarray(shape=(1), dtype=FunctionValue) = None,',
+     'functionValues: np.ndarray(shape=(1), dtype=FunctionValue) = [FunctionValue()],', 'R04.5',
+     also=[(SD, 'SearchDataItem.__init__', '        if functionValues is None:\n            functionValues = [FunctionValue()]\n', '')])
+fire('c04-class-holder', 'C04', SD, 'SearchDataItem.__init__', '            functionValues = [FunctionValue()]',
+     '            functionValues = SearchDataItem._shared', 'R04.5',
+     also=[(SD, 'SearchDataItem', '    def __init__(self, y: Point, x: np.double,', '    _shared = [FunctionValue()]\n\n    def __init__(self, y: Point, x: np.double,')])
+fire('c04-setz-elsewhere', 'C04', M, 'Method.RenewSearchData', 'self.searchData.InsertDataItem(newpoint, oldpoint)',
+     'self.searchData.InsertDataItem(newpoint, oldpoint)\n        oldpoint.SetZ(oldpoint.GetZ() - 1e-9)', 'R04.6')
+fire('c04-value-elsewhere', 'C04', M, 'Method.UpdateOptimum', 'self.searchData.solution.bestTrials[0] = self.best',
+     'self.searchData.solution.bestTrials[0] = self.best\n        self.best.functionValues[0].value = self.Z[0]', 'R04.6')
+fire('c04-refine-incoherent', 'C04', P, 'Process.DoLocalRefinement',
+     'self.problemCalculate(result.bestTrials[0].point.floatVariables)', 'nelder_mead.fun + 0.0', 'R04.6')
+fire('c04-refine-startpoint', 'C04', P, 'Process.DoLocalRefinement',
+     'self.problemCalculate(result.bestTrials[0].point.floatVariables)', 'self.problemCalculate(startPoint)', 'R04.6')
+twin('c04-refine-local', 'C04', P, 'Process.DoLocalRefinement',
+     '        result.bestTrials[0].point.floatVariables = nelder_mead.x\n        result.bestTrials[0].functionValues[0].value = self.problemCalculate(result.bestTrials[0].point.floatVariables)',
+     '        xs = nelder_mead.x\n        result.bestTrials[0].point.floatVariables = xs\n        result.bestTrials[0].functionValues[0].value = self.problemCalculate(xs)')
